@@ -274,6 +274,22 @@ class FlowRobust:
                 fs = _st.pack(">IIIIIIII", 1, 0, 1, 1, 0, 1, 2, 1) + rec
                 pkt = _st.pack(">II", 5, 1) + bytes([10, 0, 0, 1]) + _st.pack(">IIII", 0, 1, 2, 1) + _st.pack(">II", 1, len(fs)) + fs
                 out.append("sflow %s" % hx(pkt))
+        # ... and packets whose network header announces something OTHER than TCP / UDP / ICMP (IPv6 extension headers: hop-by-hop,
+        # routing, fragment, ESP, AH, no-next-header, destination options, mobility; IPv4 protocols GRE, ESP, SCTP, 255), over
+        # Ethernet, 802.1Q and bare, cut at every offset: the collector drops such a datagram, it must not do anything else
+        for nh in (0, 43, 44, 50, 51, 59, 60, 135, 47, 132, 255):
+            ext = bytes([6, 0]) + bytes(rng.randrange(256) for _ in range(6)) + _st.pack(">HHIIHHHH", 80, 443, 1, 2, (5 << 12) | 2, 100, 0, 0)
+            v6 = _st.pack(">IHBB", 6 << 28, len(ext), nh, 64) + bytes(rng.randrange(256) for _ in range(32)) + ext
+            v4 = bytes([0x45, 0]) + _st.pack(">HHHBBH", 20 + len(ext), 1, 0, 64, nh, 0) + bytes(8) + ext
+            for hp, h_ in ((1, bytes(12) + b"\x86\xdd" + v6), (1, bytes(12) + b"\x81\x00\x00\x05\x86\xdd" + v6), (12, v6), (1, bytes(12) + b"\x08\x00" + v4), (11, v4)):
+                if tier == "quick" and hp != 1 and nh not in (44, 0, 47):
+                    continue
+                for n in range(len(h_) + 1):
+                    h = h_[:n]
+                    rec = _st.pack(">II", 1, 16 + len(sfgen.xdr_pad(h))) + _st.pack(">IIII", hp, 1500, 0, len(h)) + sfgen.xdr_pad(h)
+                    fs = _st.pack(">IIIIIIII", 1, 0, 1, 1, 0, 1, 2, 1) + rec
+                    pkt = _st.pack(">II", 5, 1) + bytes([10, 0, 0, 1]) + _st.pack(">IIII", 0, 1, 2, 1) + _st.pack(">II", 1, len(fs)) + fs
+                    out.append("sflow %s" % hx(pkt))
         # every truncation offset (every short-read branch of the straight-line decoders) of a few sFlow datagrams and a v5 packet
         for _ in range(2 if tier == "quick" else 40):
             pkt = sfgen.gen_datagram(rng, kinds=["flow", "counter", "flow"])[0]
